@@ -639,6 +639,7 @@ type kind struct {
 	triUpper bool // the TriKind it reports
 	compact  bool // a compact *Dense (the trivial representation)
 	approx   bool // At reproduces the logical value only to rounding (factorizations)
+	special  bool // not part of the general enumeration (used by a dedicated sub-check)
 	flavor   flavor
 	trans    string // transposition pattern
 	build    func(b *builder, l *logical) mat.Matrix
@@ -880,6 +881,27 @@ func init() {
 	}
 	addKind(&kind{name: "rawVectorer", fam: "raw", class: cGeneral, shape: shCol, vec: true,
 		build: func(b *builder, l *logical) mat.Matrix { return rawVecOf(b, l) }})
+
+	// vectors whose unit-increment data slice is longer than N (legal for
+	// blas64.Vector; reachable through SetRawVector and user RawVectorers).
+	// Only used by the vec-slack sub-check.
+	slackVector := func(b *builder, l *logical) blas64.Vector {
+		n := len(l.v)
+		d := b.sentinels(n + b.pad(1, 3))
+		copy(d, l.v)
+		b.watch("slack-vector", d)
+		return blas64.Vector{N: n, Inc: 1, Data: d}
+	}
+	addKind(&kind{name: "rawVectorer.slack", fam: "raw", class: cGeneral, shape: shCol, vec: true, special: true,
+		build: func(b *builder, l *logical) mat.Matrix {
+			return &rawVec{basicVec: basicVec{newBasic(l)}, x: slackVector(b, l)}
+		}})
+	addKind(&kind{name: "vec.setraw.slack", fam: "vec", class: cGeneral, shape: shCol, vec: true, special: true,
+		build: func(b *builder, l *logical) mat.Matrix {
+			var v mat.VecDense
+			v.SetRawVector(slackVector(b, l))
+			return &v
+		}})
 
 	// --- row vectors (1×n)
 	addKind(&kind{name: "vec.T", fam: "vecT", class: cGeneral, shape: shRow, trans: "T",
